@@ -41,4 +41,12 @@ theorem stream_skip_cursor_tie : Generated.C08.streamSkipAdvancesSeries = false 
 /-- F27: null values do not take part in the block's min/max (hypothesis `SummarySound` of `pruning_sound`). -/
 theorem stream_minmax_tie : Generated.C08.streamMinMaxIgnoresNull = true := rfl
 
+/-- F62: `Range` does not prune blocks without recorded bounds (model: `opRange`). -/
+theorem stream_range_guard_tie : Generated.C08.streamRangeGuardsMissingBounds = true := rfl
+theorem sidx_range_guard_tie : Generated.C08.sidxRangeGuardsMissingBounds = true := rfl
+/-- F61: searcher results are fresh lists (model: `exec` is a pure function of the index). -/
+theorem inverted_fresh_lists_tie : Generated.C08.invertedReturnsSharedDummyList = false := rfl
+/-- F63: numeric equality is exact (model: `Term.num` equality). -/
+theorem inverted_numeric_eq_tie : Generated.C08.invertedNumericEqByDecimalText = false := rfl
+
 end Banyan.Tie.C08
